@@ -6,7 +6,7 @@ use vstd::prelude::*;
 verus! {
 
 #[verifier::external_body]
-fn msg() -> String { String::new() }
+fn opaque_msg() -> String { String::new() }
 
 #[derive(PartialEq, Eq, Structural, Clone, Copy)]
 pub enum IoErrorKind { InvalidInput, UnexpectedEof, InvalidData, Other }
